@@ -73,6 +73,34 @@ impl Run {
     }
   }
 
+  /// subscribe the way most users do: `on_error(..)`, `on_complete(..)` and
+  /// `subscribe(next)` closures, all writing into one log. `error_first`
+  /// selects the order in which the two terminal handlers are attached.
+  pub fn subscribe_callbacks(&mut self, pipe: &Pipe, probe: Probe, error_first: bool) -> Sub {
+    let (p1, p2, p3) = (probe.clone(), probe.clone(), probe);
+    let on_e = move |e: E| p1.push_note(Note::Err(e));
+    let on_c = move || p2.push_note(Note::C);
+    let on_n = move |v: V| p3.push_note(Note::N(v));
+    match self.form {
+      Form::Local => {
+        let op = build_local(pipe, &self.cx);
+        if error_first {
+          Sub::L(BoxSubscription::new(op.on_error(on_e).on_complete(on_c).subscribe(on_n)))
+        } else {
+          Sub::L(BoxSubscription::new(op.on_complete(on_c).on_error(on_e).subscribe(on_n)))
+        }
+      }
+      Form::Threads => {
+        let op = build_threads(pipe, &self.cx);
+        if error_first {
+          Sub::T(BoxSubscriptionThreads::new(op.on_error(on_e).on_complete(on_c).subscribe(on_n)))
+        } else {
+          Sub::T(BoxSubscriptionThreads::new(op.on_complete(on_c).on_error(on_e).subscribe(on_n)))
+        }
+      }
+    }
+  }
+
   pub fn start(pipe: &Pipe, form: Form) -> Run {
     let mut r = Run::prepare(pipe.n_inputs(), form);
     r.subscribe(pipe);
